@@ -53,6 +53,9 @@ def gen_poly(rng, quick=True, max_rows=None, max_cols=None, wide=False):
     r = rng.random()
     if r < 0.3:
         out["first"] = rng.choice(["bool0", "bool0", "int0", "named", "fixed3", "fixed0", "fixedneg", "open"])
+    if rng.random() < 0.3:
+        # the polyhedron a caller holds is as often the output of another operation as it is freshly declared
+        out.update(prov=rng.choice(PROVS), prov_k=rng.randint(0, 11), prov_b=rng.randint(-2, 3))
     return out
 
 
@@ -119,7 +122,53 @@ def gen_chain(rng, quick=True):
     return {"bnds": [[0, 1] for _ in range(nc)], "rows": rows}
 
 
+PROVS = ["rows_dropped", "rows_dropped_reduce", "cols_dropped", "copy", "deepcopy", "view", "astype", "config", "config_b64"]
+
+
 def real_poly(p, ids=None, dtype=None):
+    """the real polyhedron for the logical polyhedron `p`; with p["prov"] it is the OUTPUT of another operation applied to a
+    larger or equal fresh polyhedron (a junk row dropped by reduce_rows / reduce — the row index is then no longer the row
+    positions —, a fixed-to-0 column dropped by reduce_columns — Fortran order —, copies and views, the configurator's
+    subclass, a base64 round trip of it): same rows, columns and labels as the fresh one"""
+    prov = p.get("prov") if dtype is None else None
+    if not prov:
+        return _fresh_poly(p, ids, dtype)
+    import copy as _copy
+    nc = len(p["bnds"]); nr = len(p["rows"])
+    ids = ids or [f"x{j}" for j in range(nc)]
+    k = p.get("prov_k", 0)
+    if prov in ("rows_dropped", "rows_dropped_reduce") and nr >= 1:
+        pos = k % nr                                   # never the last position: the rows after it keep larger index ids
+        junk = [p.get("prov_b", 1), [((k + j) % 3) - 1 for j in range(nc)]]
+        big = dict(p, rows=p["rows"][:pos] + [junk] + p["rows"][pos:])
+        g = _fresh_poly(big, ids, None)
+        mask = np.array([1 if i == pos else 0 for i in range(nr + 1)])
+        return g.reduce_rows(mask) if prov == "rows_dropped" else g.reduce(rows_vector=mask)
+    if prov == "cols_dropped":
+        pos = k % (nc + 1)
+        big = dict(p, bnds=p["bnds"][:pos] + [[0, 1]] + p["bnds"][pos:],
+                   rows=[[r[0], list(r[1][:pos]) + [((k + i) % 5) - 2] + list(r[1][pos:])] for i, r in enumerate(p["rows"])])
+        g = _fresh_poly(big, ids[:pos] + ["junk-col"] + ids[pos:], None)
+        cv = np.array([0.0 if j == pos else np.nan for j in range(nc + 1)])
+        return g.reduce_columns(cv)
+    g = _fresh_poly(p, ids, None)
+    if prov == "copy": return g.copy()
+    if prov == "deepcopy": return _copy.deepcopy(g)
+    if prov == "view": return g.view()
+    if prov == "astype": return g.astype(np.int64)
+    if prov in ("config", "config_b64"):
+        c = pnd.ge_polyhedron_config(g, default_prio_vector=np.array([-1] * nc), variables=g.variables, index=g.index)
+        return pnd.ge_polyhedron_config.from_b64(c.to_b64()) if prov == "config_b64" else c
+    return g
+
+
+def with_prov(rng, p, prob=0.3):
+    if rng.random() < prob:
+        p = dict(p, prov=rng.choice(PROVS), prov_k=rng.randint(0, 11), prov_b=rng.randint(-2, 3))
+    return p
+
+
+def _fresh_poly(p, ids=None, dtype=None):
     nc = len(p["bnds"])
     ids = ids or [f"x{j}" for j in range(nc)]
     # how the caller declares the variable of the support (constant) column: it is not a decision variable, and its
